@@ -212,10 +212,15 @@ func (g *gen) genStatement(typ types.Type, this string) error {
 		p.P("}")
 		return nil
 	case *types.Struct:
-		fields := derive.Fields(g.TypesMap, ttyp, false)
+		named, isNamed := typ.(*types.Named)
+		external := isNamed && g.TypesMap.IsExternal(named)
+		fields := derive.Fields(g.TypesMap, ttyp, external)
 		gotypeStr := g.TypeString(typ)
 		g.W("%s := &%s{}", this, gotypeStr)
 		for _, field := range fields.Fields {
+			if field.Private() && external {
+				return fmt.Errorf("private fields of external structs not supported, found %s in %v", field.DebugName(), g.TypeString(typ))
+			}
 			thisField := field.Name(this, nil)
 			if err := g.genField(field.Type, thisField); err != nil {
 				return err
